@@ -86,6 +86,18 @@ class SchemaReader:
                     env[("vec", st["pat"]["v"])] = []
                 if pi.get("k") == "Var" and pi["v"] in self.verenv:
                     self.verenv[st["pat"]["v"]] = ("ver",)
+                # `let d = variants.len() as u8`: the number of elements pushed so far (under the version being simulated)
+                pl = pi
+                cast_ty = None
+                if pl.get("k") == "Cast":
+                    cast_ty = pl.get("ty")
+                    pl = peel_block(peel(pl["e"]))
+                if pl.get("k") == "Call" and (callee(pl) or "").endswith("::len") and pl.get("args"):
+                    tv = peel(pl["args"][0])
+                    if tv.get("k") == "Var" and ("vec", tv["v"]) in env:
+                        n_ = len(env[("vec", tv["v"])])
+                        bits = {"u8": 8, "u16": 16, "u32": 32}.get(cast_ty)
+                        init = {"k": "Lit", "int": n_ & ((1 << bits) - 1) if bits else n_, "ty": cast_ty or "usize"}
                 env[st["pat"]["v"]] = init
             elif st["k"] == "ExprS":
                 self.sim_expr(st["e"], env)
